@@ -89,7 +89,11 @@ impl PhoneticSuggestion {
                     let key = &middle[..(middle.len() - suffix_key.len())];
                     if let Some(cache) = self.cache.get(key) {
                         for base in cache {
-                            let base_rmc = base.to_string().chars().last().unwrap(); // Right most character.
+                            // Right most character, an empty item (of an empty auto correct entry) has none.
+                            let base_rmc = match base.to_string().chars().last() {
+                                Some(character) => character,
+                                None => continue,
+                            };
                             let suffix_lmc = suffix.chars().next().unwrap(); // Left most character.
                             let mut word = String::with_capacity(middle.len() * 3);
                             word.push_str(base.to_string());
